@@ -77,8 +77,9 @@ LITRE = {"kL": "k", "L": "", "mL": "m", "µL": "µ", "nL": "n", "pL": "p", "fL":
 
 
 class Rescaler:
-    def __init__(self, rng, p_change=0.4, p_drop=0.12, p_explicit=0.2):
+    def __init__(self, rng, p_change=0.4, p_drop=0.12, p_explicit=0.2, force_script_time=None):
         self.rng, self.p_change, self.p_drop, self.p_explicit = rng, p_change, p_drop, p_explicit
+        self.force_script_time = force_script_time      # the re-scaled script uses this time unit (small-step pairs)
         self.changed = []       # levels whose resolved system changed
         self.explicit = 0
 
@@ -86,7 +87,10 @@ class Rescaler:
         rng = self.rng
         old = resolve(d.get("units"), old_parent, script_level)
         r = rng.random()
-        if r < self.p_change:
+        if script_level and self.force_script_time:
+            new = (rng.choice(L.SPACE), self.force_script_time, rng.choice(L.QTY))
+            d["units"] = L.sysj(new)
+        elif r < self.p_change:
             new = L.rand_sys(rng)
             dd = L.sysj(new)
             for i, k in enumerate(("space", "time", "quantity")):
@@ -321,11 +325,25 @@ def member(sd, U1, nsteps, refuse=False):
     return out
 
 
-def gen_script_desc(ctx, rng, k, max_cells=None):
+# a time step whose NUMBER in the script's units system is tiny (a legitimate µs step of fast kinetics in a script counting
+# hours; sub-ns steps in seconds): (time unit of the script, step in s)
+SMALL_STEPS = [("h", Fraction(1, 10 ** 6)), ("min", Fraction(1, 2 ** 26)), ("s", Fraction(1, 2 ** 32)), ("h", Fraction(1, 2 ** 20)),
+               ("min", Fraction(1, 10 ** 9))]
+
+
+def fine_time_unit(rng, dt_nat):
+    """a time unit in which the step is a number >= 1e-3"""
+    return rng.choice([u for u in L.TIME if dt_nat / L.si_time(u) >= Fraction(1, 1000)])
+
+
+def gen_script_desc(ctx, rng, k, max_cells=None, small=None):
     kind = "grid" if k % 2 == 0 else "graph"
     sd = {"t_sample": [0], "sampling_policy": "on_iteration", "rng_seed": 1}
     r = rng.random()
-    if r < 0.5:
+    if small is not None:
+        us = (rng.choice(L.SPACE), small[0], rng.choice(L.QTY))
+        sd["units"] = L.sysj(us)
+    elif r < 0.5:
         us = L.rand_sys(rng)
         sd["units"] = L.sysj(us)
     elif r < 0.6:
@@ -343,6 +361,13 @@ def gen_script_desc(ctx, rng, k, max_cells=None):
                          for v in [rng.choice([0, 1, 2.5, 40, 0.75, 100.25]) for _ in range(phys["ns"] * phys["n"])]]
     dt_nat = rng.choice([Fraction(1, 64), Fraction(1, 256), Fraction(1, 16)])
     sd["time_step"] = float(dt_nat / L.si_factor(us, L.D_TIME))
+    if small is not None:
+        dt_nat = small[1]
+        if rng.random() < 0.5:
+            sd["time_step"] = float(dt_nat / L.si_factor(us, L.D_TIME))           # the bare (tiny) number in the script's time unit
+        else:
+            tu = fine_time_unit(rng, dt_nat)
+            sd["time_step"] = "%r %s" % (float(dt_nat / L.si_time(tu)), tu)        # explicit text, e.g. '1.0 µs'
     if rng.random() < 0.4:
         # sample times given as an explicit UnitArray in some other time unit; t_max defaults to the last one (2.5 dt)
         tu = rng.choice(L.TIME)
@@ -472,9 +497,12 @@ def run(ctx):
         if C1.out_of_time(ctx):
             ctx.notes.append("stopped after %d pairs (time budget)" % k)
             break
-        sdA, phys = gen_script_desc(ctx, rng, k)
-        R = Rescaler(rng)
+        small = SMALL_STEPS[(k // 6) % len(SMALL_STEPS)] if k % 6 == 2 else None
+        sdA, phys = gen_script_desc(ctx, rng, k, small=small)
+        R = Rescaler(rng, force_script_time=fine_time_unit(rng, small[1]) if small else None)
         sdB = R.script(sdA)
+        if small:
+            ctx.count("small_step_pairs")
         U1, U2 = L.rand_sys(rng), L.rand_sys(rng)
         refuse_on = rng.choice(["A", "B", None])
         case = {"kind": "pair", "A": sdA, "B": sdB, "U1": list(U1), "U2": list(U2), "nsteps": NSTEPS, "phys": C1.phys_dump(phys),
@@ -634,6 +662,14 @@ def compare_pair(ctx, a, b, phys, case, changed):
                     ctx.violation("units:completion", "member %s recorded %d samples in %d iterations; with dt = %r s and t_max = %r s it must be %d"
                                   % (tag, len(m["traj"]), case["nsteps"], float(dt_phys), float(tmax_phys), exp_n), dict(case, member=tag), impl=len(m["traj"]), expected=exp_n)
                     return
+    # sample k of a run sampled on every iteration is stamped k*dt (physical), whatever the size of the NUMBER dt in the script's units
+    for tag, m, sd in (("A", a, case["A"]), ("B", b, case["B"])):
+        for k, t in enumerate(m["t"]):
+            if not close(t, k * m["dt_si"], rel=1e-9):
+                ctx.violation("units:traj-time-physical", "member %s (script units %s, time_step = %r, i.e. %r s): sample %d is stamped %r s, %d steps of the "
+                              "requested size are %r s" % (tag, sd.get("units"), sd["time_step"], float(m["dt_si"]), k, t, k, float(k * m["dt_si"])),
+                              dict(case, member=tag, sample=k), impl=t, expected=float(k * m["dt_si"]))
+                return
     if len(a["traj"]) != len(b["traj"]):
         ctx.violation("units:traj-length", "different number of samples: %d vs %d" % (len(a["traj"]), len(b["traj"])), case)
         return
